@@ -193,4 +193,53 @@ theorem mux_ip_frame_not_prepended :
   rw [this]
   decide
 
+/-! ## Self-delimiting wire format: END occurs only at packet boundaries -/
+
+/-- Byte stuffing removes every END from the body. -/
+theorem stuffed_no_end (p : List Nat) : ∀ x ∈ p.flatMap stuff, x ≠ cEND := by
+  intro x hx
+  rw [List.mem_flatMap] at hx
+  obtain ⟨b, _, hb⟩ := hx
+  unfold stuff at hb
+  by_cases h1 : b = cEND
+  · rw [if_pos h1] at hb
+    simp only [List.mem_cons, List.not_mem_nil, or_false] at hb
+    rcases hb with rfl | rfl <;> decide
+  · rw [if_neg h1] at hb
+    by_cases h2 : b = cESC
+    · rw [if_pos h2] at hb
+      simp only [List.mem_cons, List.not_mem_nil, or_false] at hb
+      rcases hb with rfl | rfl <;> decide
+    · rw [if_neg h2] at hb
+      simp only [List.mem_cons, List.not_mem_nil, or_false] at hb
+      rw [hb]; exact h1
+
+theorem encode_end_count (p : List Nat) : (encode p).count cEND = 2 := by
+  unfold encode
+  have h : (p.flatMap stuff).count cEND = 0 :=
+    List.count_eq_zero.mpr (fun hm => stuffed_no_end p _ hm rfl)
+  simp [List.count_append, h]
+
+theorem stream_end_count (ps : List (List Nat)) : (ps.flatMap encode).count cEND = 2 * ps.length := by
+  induction ps with
+  | nil => simp
+  | cons p ps ih =>
+    rw [List.flatMap_cons, List.count_append, encode_end_count, ih, List.length_cons]; omega
+
+/-- Wire size of a packet: between n+2 and 2n+2 bytes. -/
+theorem encode_length_bounds (p : List Nat) : p.length + 2 ≤ (encode p).length ∧ (encode p).length ≤ 2 * p.length + 2 := by
+  unfold encode
+  have : p.length ≤ (p.flatMap stuff).length ∧ (p.flatMap stuff).length ≤ 2 * p.length := by
+    induction p with
+    | nil => simp
+    | cons b p ih =>
+      have hb : 1 ≤ (stuff b).length ∧ (stuff b).length ≤ 2 := by
+        unfold stuff; split
+        · simp
+        · split <;> simp
+      simp only [List.flatMap_cons, List.length_append, List.length_cons]; omega
+  simp only [List.length_cons, List.length_append, List.length_nil]; omega
+
+example : (encode [cEND, cESC, 7]).count cEND = 2 := encode_end_count _
+
 end WaVerif.C25
